@@ -69,6 +69,55 @@ pub fn new_alc_pkt_close_session(cci: &u128, tsi: u64) -> Vec<u8> {
     crate::common::alc::new_alc_pkt_close_session(cci, tsi)
 }
 
+/// Set the RaptorQ scheme-specific information (Z, N, Al) of an OTI
+pub fn oti_set_raptorq(oti: &mut crate::core::Oti, z: u8, n: u16, al: u8) {
+    oti.scheme_specific = Some(crate::common::oti::SchemeSpecific::RaptorQ(
+        crate::common::oti::RaptorQSchemeSpecific {
+            source_blocks_length: z,
+            sub_blocks_length: n,
+            symbol_alignment: al,
+        },
+    ));
+}
+
+/// Set the Raptor scheme-specific information (Z, N, Al) of an OTI
+pub fn oti_set_raptor(oti: &mut crate::core::Oti, z: u16, n: u8, al: u8) {
+    oti.scheme_specific = Some(crate::common::oti::SchemeSpecific::Raptor(
+        crate::common::oti::RaptorSchemeSpecific {
+            source_blocks_length: z,
+            sub_blocks_length: n,
+            symbol_alignment: al,
+        },
+    ));
+}
+
+/// Set the Reed-Solomon GF(2^m) scheme-specific information (m, G) of an OTI
+pub fn oti_set_rs2m(oti: &mut crate::core::Oti, m: u8, g: u8) {
+    oti.scheme_specific = Some(crate::common::oti::SchemeSpecific::ReedSolomon(
+        crate::common::oti::ReedSolomonGF2MSchemeSpecific { m, g },
+    ));
+}
+
+/// Scheme-specific information of an OTI as (kind, a, b, c): kind 1 = Raptor (Z, N, Al),
+/// 2 = Reed-Solomon GF(2^m) (m, G, 0), 6 = RaptorQ (Z, N, Al)
+pub fn oti_get_scheme(oti: &crate::core::Oti) -> Option<(u8, u32, u32, u32)> {
+    match oti.scheme_specific.as_ref()? {
+        crate::common::oti::SchemeSpecific::Raptor(s) => Some((
+            1,
+            s.source_blocks_length as u32,
+            s.sub_blocks_length as u32,
+            s.symbol_alignment as u32,
+        )),
+        crate::common::oti::SchemeSpecific::ReedSolomon(s) => Some((2, s.m as u32, s.g as u32, 0)),
+        crate::common::oti::SchemeSpecific::RaptorQ(s) => Some((
+            6,
+            s.source_blocks_length as u32,
+            s.sub_blocks_length as u32,
+            s.symbol_alignment as u32,
+        )),
+    }
+}
+
 use std::cell::{Cell, RefCell};
 use std::time::Duration;
 
